@@ -12,6 +12,6 @@ for l in open('/verif/properties.jsonl'):
 PY
 for i in $(seq -w 1 20); do
   git -C /repo worktree add -q --detach /tmp/${R}_C$i HEAD
-  sed "s/@ID@/C$i/g; s/@R@/$R/g" /verif/tools/seed_prompt_template.txt > /tmp/${R}_prompt_C$i.txt
+  sed "s/@ID@/C$i/g; s/@R@/$R/g" ${TEMPLATE:-/verif/tools/seed_prompt_template.txt} > /tmp/${R}_prompt_C$i.txt
 done
 ls /tmp/${R}_prompt_C*.txt | wc -l
